@@ -135,6 +135,7 @@ func c11ReaderHoisted(c *Ctx) {
 func c11BodyLength(c *Ctx) {
 	w := c.w
 	rule := "body-length"
+	ruleNumberParsing(c, rule, 1, "(*Message).GetHeaderInt")
 	f := c.fn(rule, "ParseMessage")
 	if f == nil {
 		return
@@ -324,6 +325,7 @@ func c11KeepAlive(c *Ctx) {
 func c11LineAssembly(c *Ctx) {
 	w := c.w
 	rule := "line-assembly"
+	c10ResultAfterError(c, rule, "ParseMessage")
 	f := c.fn(rule, "readLine")
 	if f == nil {
 		return
